@@ -69,7 +69,8 @@ func (c *FrameCodec) Decode(src *sonic.ByteBuffer) (Frame, error) {
 	c.decodeFrame = src.Data()[:readSoFar]
 
 	payloadLength := c.decodeFrame.PayloadLength()
-	if payloadLength > c.maxMessageSize {
+	if payloadLength < 0 || payloadLength > c.maxMessageSize {
+		// A 64-bit length with the most significant bit set is invalid (RFC 6455 5.2) and shows up negative here.
 		c.decodeFrame = nil
 		return nil, ErrPayloadOverMaxSize
 	}
